@@ -6,13 +6,20 @@ import (
 
 // Reader represents a packet reader that manages incoming packets from multiple writers.
 type Reader struct {
-	writers   []*Writer
+	writers   []request
 	in        chan *Packet
 	out       chan *Packet
 	done      bool
 	inbounds  Hooks
 	outbounds Hooks
 	mu        sync.Mutex
+}
+
+// request is a written packet the reader still has to answer: the writer to answer to and
+// the generation of the link the packet was written over.
+type request struct {
+	writer *Writer
+	link   uint64
 }
 
 var ClosedReader *Reader
@@ -108,12 +115,12 @@ func (r *Reader) Receive(pck *Packet) bool {
 
 	r.outbounds.Handle(pck)
 
-	w := r.writers[0]
+	req := r.writers[0]
 	r.writers = r.writers[1:]
 
 	r.mu.Unlock()
 
-	return w.receive(pck, r)
+	return req.writer.receive(pck, r, req.link)
 }
 
 // Close closes the reader and releases its resources, stopping further packet processing.
@@ -126,9 +133,9 @@ func (r *Reader) Close() {
 	}
 
 	pck := New(ErrDroppedPacket)
-	for _, w := range r.writers {
+	for _, req := range r.writers {
 		r.outbounds.Handle(pck)
-		go w.receive(pck, r)
+		go req.writer.receive(pck, r, req.link)
 	}
 
 	close(r.in)
@@ -139,7 +146,7 @@ func (r *Reader) Close() {
 	r.outbounds = nil
 }
 
-func (r *Reader) write(pck *Packet, writer *Writer) bool {
+func (r *Reader) write(pck *Packet, writer *Writer, link uint64) bool {
 	r.mu.Lock()
 	defer r.mu.Unlock()
 
@@ -147,7 +154,7 @@ func (r *Reader) write(pck *Packet, writer *Writer) bool {
 		return false
 	}
 
-	r.writers = append(r.writers, writer)
+	r.writers = append(r.writers, request{writer: writer, link: link})
 	r.inbounds.Handle(pck)
 	r.in <- pck
 	return true
